@@ -1,6 +1,7 @@
 package main
 
 import (
+	"encoding/base64"
 	"encoding/json"
 	"fmt"
 	"strings"
@@ -45,7 +46,7 @@ func (c20Driver) Gen(r *Rand, tier string) []json.RawMessage {
 	// exhaustive over n <= maxN for one connection kind per (n) rotating, all cursor and size combos
 	ci := 0
 	for n := 0; n <= maxN; n++ {
-		curs := []c20Cursor{{Kind: "nil"}, {Kind: "foreign"}, {Kind: "malformed"}}
+		curs := []c20Cursor{{Kind: "nil"}, {Kind: "foreign"}, {Kind: "foreign", Off: 1 + n%5}, {Kind: "malformed"}}
 		for o := 0; o <= n; o++ { // offset n is a well-formed cursor that designates no element
 			curs = append(curs, c20Cursor{Kind: "off", Off: o})
 		}
@@ -87,7 +88,7 @@ func (c20Driver) Gen(r *Rand, tier string) []json.RawMessage {
 				return c20Cursor{Kind: "nil"}
 			case 1:
 				if r.Bool() {
-					return c20Cursor{Kind: "foreign"}
+					return c20Cursor{Kind: "foreign", Off: r.Intn(6)}
 				}
 				return c20Cursor{Kind: "malformed"}
 			default:
@@ -176,7 +177,10 @@ func c20CursorStr(c c20Cursor) *string {
 		s := connections.OffsetToCursor(c.Off)
 		return &s
 	case "foreign":
-		s := "Zm9yZWlnbjoz" // base64("foreign:3")
+		// well-formed base64 that designates no element of any list: another prefix, negative, huge, empty or
+		// trailing-garbage offsets
+		raw := []string{"foreign:3", "cursor:-1", "cursor:-3", "cursor:99999999999999999999", "cursor:", "cursor:1x"}[c.Off%6]
+		s := base64.StdEncoding.EncodeToString([]byte(raw))
 		return &s
 	default:
 		s := "%%%not-base64%%%"
